@@ -7,7 +7,7 @@ use xeh::prelude::*;
 
 pub const DEF: PropDef = PropDef {
     id: "C15",
-    rule: "programs = control-flow backbone + snippets covering builders, foreach, let, late words, cursor reads, tags, collection words, meta blocks, emit, and failing tails (run-time, build-time, in a meta block); 1 in 6 instead a straight-line program over the whole native dictionary (the typed table of C13), \
+    rule: "programs = control-flow backbone + snippets covering builders, foreach, let, late words, cursor reads, tags, collection words, meta blocks, emit, and failing tails (run-time, build-time, in a meta block); 1 in 6 instead a straight-line program over the whole native dictionary (the typed table of C13); 1 case in 4 runs under a small data stack limit, \
 submitted to an idle interpreter that already holds a generated prelude; six drives on clones: eval / compile+run / compile+next()* x recording off/on. All six must agree on the result value, the error location \
 (token range and source name), the dump sections ip, data stack (with hidden base), return stack with locals, loops, builder marks, heap, all variables and stdout; mode/nesting/pending-flow bookkeeping is compared only for \
 succeeding programs (what a failed submission leaves there is C10's subject). Non-trivial = >=10 instructions executed and >=3 distinct feature kinds; distinct = hash of prelude+source",
@@ -180,6 +180,8 @@ pub fn case(ch: &mut Choices, ctx: &CaseCtx) -> CaseOut {
     let mut base = xs::fresh();
     base.intercept_output(true).unwrap();
     base.set_insn_limit(Some(INSN_LIMIT)).unwrap();
+    // 1 case in 4: a small data stack limit is configured as well - every drive must hit it at the same point
+    let stack_limit = if ch.chance(1, 4) { Some(2 + ch.below(12)) } else { None };
     let use_prelude = ch.chance(2, 3);
     let mut prelude_src = String::new();
     if use_prelude {
@@ -189,6 +191,10 @@ pub fn case(ch: &mut Choices, ctx: &CaseCtx) -> CaseOut {
             base = cand;
             prelude_src = pre.source.clone();
         }
+    }
+    if let Some(l) = stack_limit {
+        base.set_stack_limit(Some(l + base.data_depth())).unwrap();
+        out.class("stack-limit-configured");
     }
     // 1 case in 3 is a two-source history: the second source redefines / updates what the first one used
     let mut sources: Vec<String> = vec![p.source.clone()];
